@@ -166,6 +166,16 @@ def main(argv=None) -> int:
     ap.add_argument("--no-confirm", action="store_true")
     a = ap.parse_args(argv)
     pid = a.prop.upper()
+    if not os.environ.get("LADIM2_VERIF_SCRATCH"):  # one scratch directory for this run and all its workers and replays, removed at exit
+        import atexit
+        import shutil
+        import tempfile
+
+        _base = "/dev/shm" if os.path.isdir("/dev/shm") and os.access("/dev/shm", os.W_OK) else None
+        _run_dir = tempfile.mkdtemp(prefix="ladim_verif_run_", dir=_base)
+        os.environ["LADIM2_VERIF_SCRATCH"] = _run_dir
+        _owner = os.getpid()
+        atexit.register(lambda: shutil.rmtree(_run_dir, ignore_errors=True) if os.getpid() == _owner else None)
     os.environ.setdefault("PYTHONHASHSEED", "0")
     sys.path.insert(0, str(VERIF))
 
